@@ -191,9 +191,10 @@ def run(c, a):
         for o in bobl:
             if o["leaf"].startswith("ns") and o["inblob"]:
                 for solo in (False, True):
-                    d = dict(o)
-                    d.update(variant="dirty", value="ns-not-mapped", solo=solo, id=len(blobs) + 1)
-                    blobs.append(d)
+                    for variant in ("dirty", "dirtyfirst"):     # the event that needs the repair is the last / the first of the batch
+                        d = dict(o)
+                        d.update(variant=variant, value="ns-not-mapped", solo=solo, id=len(blobs) + 1)
+                        blobs.append(d)
         brecs = p_schema.run_obligations(c, blobs, "u8blob")
         brecs = [r_ for r_ in brecs if not r_.get("scope")]
         nb = 0
